@@ -218,3 +218,11 @@ Definition point_in_polygon (p : pt) (poly : list pt) : bool := parity p (edges 
 
 Definition rot1 {A} (l : list A) : list A := match l with [] => [] | a :: t => t ++ [a] end.
 Fixpoint rotate {A} (k : nat) (l : list A) : list A := match k with O => l | S k' => rotate k' (rot1 l) end.
+
+(* the mask as the implementation builds it (mask.pyx: triangulate2d + a mesh of triangles with value 1): a fan of
+   triangles from the first vertex, combined by parity *)
+Fixpoint fan_parity (p : pt) (a : pt) (l : list pt) : bool :=
+  match l with
+  | b :: t => match t with c :: _ => xorb (point_in_polygon p [a; b; c]) (fan_parity p a t) | [] => false end
+  | [] => false
+  end.
